@@ -363,3 +363,24 @@ PROPS["C17"] = dict(
     assumptions=["one field's YAML text is opaque (third-party marshaller)", "ASCII field lines (Unicode case folding of the line matcher not modelled)"],
     design_ref="DESIGN.md §5 C17",
 )
+
+PROPS["C18"] = dict(
+    title="`kustomize localize` is confined, equivalent, and all-or-nothing",
+    modules=["Kust.Props.C18"],
+    theorems=["Kust.C18.prefix_comparable", "Kust.C18.applyMut_outside", "Kust.C18.doMut_inv", "Kust.C18.copyFile_inv",
+              "Kust.C18.localizeRootWith_keeps", "Kust.C18.localizeOne_keeps", "Kust.C18.localizeRefs_keeps", "Kust.C18.localize_keeps",
+              "Kust.C18.run_inv", "Kust.C18.writes_confined", "Kust.C18.source_unchanged", "Kust.C18.cleanup_restores",
+              "Kust.C18.all_or_nothing", "Kust.C18.exPre"],
+    components=["loc.run"],
+    oracle=True,
+    n_corr={"quick": 1500, "thorough": 20000}, n_oracle={"quick": 8, "thorough": 120},
+    technique="Lean 4 proof (localize as a program over a file system with one failing operation: invariant 'nothing outside the destination changes, every mutating call is at or below it' through the recursion over roots; a failed run restores the file system) + Go/Lean correspondence on the in-memory FS (success flag, full mutating-call trace, final tree, with the k-th mutating call failing) + exhaustive fault sweep on real directories in a child process (every file-system call of every scenario made to fail once) with build equivalence of the copy",
+    level_text="PARTIAL. Theorems, for every source tree, reference list, scope/destination, failing operation index and failing read set: all Mkdir/MkdirAll/"
+               "WriteFile/RemoveAll calls address the destination or below; nothing outside it ever changes; if the run fails and the final RemoveAll is not itself the "
+               "failing call, the file system is exactly the initial one (false before fixes C18-F1..F3). Build equivalence of the copy is NOT proved (the "
+               "kustomization rewriting and YAML are third-party): the sweep builds source and copy for every successful scenario. Symbolic links, remote targets "
+               "and helm fields are outside the model.",
+    level_note=COMMON_NOTE + "A failing operation has no effect in the model; kustomization parsing is an input (the harness parses, the entries Go walks in map order are restricted to one per kustomization in the trace correspondence).",
+    assumptions=["a failing file-system call has no partial effect", "the clean-up RemoveAll itself does not fail", "no symbolic links in the source tree"],
+    design_ref="DESIGN.md §5 C18",
+)
